@@ -349,6 +349,18 @@ theorem admitted_signature (env : Env) (s s' : St) (tx : Tx) (p : Option Nat) (h
   · exact Or.inl ⟨a, c⟩
   · exact Or.inr ⟨a, k, hk, c⟩
 
+/-- **wire bytes → key fit** (admitted_sound ∘ admitted_alg_fits_key): whenever offering bytes changes the state at all, they
+    parse to a transaction whose header algorithm fits the key that verified it — the embedded one, or the one its kid
+    resolves to as of its prevs. -/
+theorem offered_bytes_alg_fits_key (cfg : Cfg) (b64 : String → Bool) (env : Env) (subs : List Sub) (s : St) (hd : Hdr) (p : Option Nat)
+    (hne : (offer cfg b64 env subs s hd p).1 ≠ s) :
+    ∃ tx, parse cfg b64 hd = .ok tx ∧
+      ((tx.jwk = true ∧ algorithmFitsKey tx.alg (env.jwkShape tx) = true ∧ env.sigJwk tx = true) ∨
+       (tx.jwk = false ∧ ∃ k, resolveKey env tx.kid tx.prevs = .ok k ∧ algorithmFitsKey tx.alg (env.keyShape k) = true ∧
+         env.sigKey tx k = true)) := by
+  obtain ⟨tx, h1, _, _, h4⟩ := admitted_sound cfg b64 env subs s hd p hne
+  exact ⟨tx, h1, admitted_alg_fits_key env s _ tx p h4⟩
+
 /-- the curve switch of `AlgorithmFitsKey` is RFC 7518 §3.4: P-256 ⇒ ES256, P-384 ⇒ ES384, P-521 ⇒ ES512, nothing asked of other curves -/
 theorem alg_fits_ec_iff (alg c : String) :
     algorithmFitsKey alg (.ec c) = true ↔
